@@ -240,6 +240,7 @@ class Engine(object):
         self.native_models = None
         from . import models
         self.models = models.Models(self)
+        self.explore_budget_s = 300    # wall clock per contract: beyond it the function counts as outside the supported subset (undecided)
         self.axioms = []           # global axioms (about uninterpreted functions) added to every query
 
     # ------------------------------------------------------------------------------------------------- paths
@@ -247,7 +248,11 @@ class Engine(object):
         """run thunk() along every feasible path; thunk returns (kind, value[, extra]) or raises PyRaise"""
         work = [[]]
         out = []
+        t_start = time.time()
         while work:
+            if time.time() - t_start > self.explore_budget_s:
+                raise Unsupported("path exploration exceeded its budget of %d s (%d paths kept, %d infeasible dropped so far)"
+                                  % (self.explore_budget_s, len(out), self.stats["infeasible_dropped"]))
             prefix = work.pop()
             self.path = Path(prefix)
             sym._counter[0] = 0
@@ -293,7 +298,8 @@ class Engine(object):
         for a in self.axioms:
             s.add(a)
         t = time.time()
-        r = s.check()
+        from . import solve as _solve
+        r = _solve.guarded_check(s, int(timeout_ms or self.feas_timeout_ms))
         self.stats["feas_queries"] += 1
         self.stats["feas_s"] += time.time() - t
         if r == z3.sat:
@@ -301,6 +307,32 @@ class Engine(object):
         if r == z3.unsat:
             return False
         return None
+
+    _re_cache = {}
+
+    def _has_re(self, t):
+        k = t.get_id()
+        c = Engine._re_cache.get(k)
+        if c is not None and c[0].eq(t):
+            return c[1]
+        found = False
+        seen = set()
+        st = [t]
+        while st and not found:
+            x = st.pop()
+            i = x.get_id()
+            if i in seen:
+                continue
+            seen.add(i)
+            if z3.is_app(x):
+                if x.decl().kind() == z3.Z3_OP_SEQ_IN_RE:
+                    found = True
+                else:
+                    st.extend(x.children())
+            elif z3.is_quantifier(x):
+                st.append(x.body())
+        Engine._re_cache[k] = (t, found)
+        return found
 
     _sym_cache = {}
 
